@@ -34,6 +34,8 @@ DInit(syncCap, asyncCap, max) ==
    accTiny |-> 0, dlvTiny |-> 0,        \* notifications too short to carry an identity (length 0 or 1): they stand in
    dlvA |-> [l \in {0, 1} |-> 0],       \* acc[m] as anonymous tokens <<per, 0, len>>; deliveries are counted per length
    inPer |-> 0,                         \* synchronous notifications accepted in the sender's current period
+   holdGen |-> 0, okHold |-> 0,         \* synchronous notifications accepted during the current hold of the sender's
+                                        \* Connection tasks (an adversarial scheduler: no consumer of the channel runs)
    per |-> 0, sopen |-> FALSE,          \* sender's current period
    asyncErr |-> FALSE,                  \* an asynchronous send failed in the current period
    syncCap |-> syncCap, asyncCap |-> asyncCap, max |-> max, bad |-> ""]
@@ -41,7 +43,7 @@ DInit(syncCap, asyncCap, max) ==
 Fail(D, why) == IF D.bad = "" THEN [D EXCEPT !.bad = why] ELSE D
 
 \* sender's user: stream opened / closed in its view
-POpened(D, per) == [D EXCEPT !.per = per, !.sopen = TRUE, !.inPer = 0, !.asyncErr = FALSE]
+POpened(D, per) == [D EXCEPT !.per = per, !.sopen = TRUE, !.inPer = 0, !.asyncErr = FALSE, !.okHold = 0]
 PClosed(D) == [D EXCEPT !.sopen = FALSE, !.asyncErr = FALSE]
 
 \* one send call with its result; w = milliseconds the call took; len = payload length;
@@ -58,6 +60,17 @@ PSend(D, m, per, n, len, r, w, idn) ==
        ELSE D1
   ELSE IF m = "a" /\ r = "err" THEN [D1 EXCEPT !.asyncErr = TRUE]
   ELSE D1
+
+\* hg = generation of the hold of the sender's Connection tasks the call was made in (0 = not held): while a
+\* hold lasts nothing is taken out of the synchronous channel, so it cannot accept more than its capacity - a
+\* synchronous send that returns Ok beyond that was not queued (Sync clause: "reports a clogged channel instead")
+PSendH(D0, m, per, n, len, r, w, idn, hg) ==
+  LET D == IF m = "s" /\ hg # D0.holdGen THEN [D0 EXCEPT !.holdGen = hg, !.okHold = 0] ELSE D0
+      DH == IF m = "s" /\ r = "ok" /\ hg # 0 THEN
+                 IF D.okHold >= D.syncCap THEN Fail(D, "synchronous send accepted although the full channel had no consumer")
+                 ELSE [D EXCEPT !.okHold = @ + 1]
+            ELSE D IN
+  PSend(DH, m, per, n, len, r, w, idn)
 
 \* index of the first occurrence of x in s after position k (0 if none)
 FindAfter(s, x, k) == IF \E i \in (k + 1)..Len(s) : s[i] = x THEN CHOOSE i \in (k + 1)..Len(s) : s[i] = x /\ \A j \in (k + 1)..(i - 1) : s[j] # x ELSE 0
